@@ -79,8 +79,8 @@ CHECKS["C04"] = dict(
 )
 
 CHECKS["C01"] = dict(
-    technique="static analysis: exhaustiveness of generator dispatch over the classes each dialect's parser chain constructs (AST + import-introspected dispatch tables), fixpoint closure of operator and time-format tables across tokenizer/parser/generator",
-    text="For all 34 SQL dialect classes: every expression class the dialect's parser chain can construct must be printable by the same dialect's generator (16k class-dialect pairs); every table-driven binary operator printed by self.binary(e, OP) must tokenize and re-parse to the same class (base) or to a class printed identically (500+ obligations); the effective time/format mapping tables must be idempotent on the generator's image (900+ entries). These are necessary conditions of the round-trip fixpoint visible in tables; precedence, nesting and bespoke parse/print pairs are run-time valued and NOT decided. Every Parser/Generator/Tokenizer setting that a dialect overrides must be read somewhere (a dead setting means the dialect's reader and writer silently stopped agreeing).",
+    technique="static analysis: exhaustiveness of generator dispatch over the classes each dialect's parser chain constructs (AST + import-introspected dispatch tables), fixpoint closure of operator, time-format, function-name and type-name tables across tokenizer/parser/generator",
+    text="For all 34 SQL dialect classes: every expression class the dialect's parser chain can construct must be printable by the same dialect's generator (16k class-dialect pairs); every table-driven binary operator printed by self.binary(e, OP) must tokenize and re-parse to the same class (base) or to a class printed identically (500+ obligations); the effective time/format mapping tables must be idempotent on the generator's image (900+ entries). These are necessary conditions of the round-trip fixpoint visible in tables; precedence, nesting and bespoke parse/print pairs are run-time valued and NOT decided. Every Parser/Generator/Tokenizer setting that a dialect overrides must be read somewhere (a dead setting means the dialect's reader and writer silently stopped agreeing). Function names (13k obligations) and single-word type names (2.5k) printed by a dialect must be read back by the same dialect as the same class / type or as one printed under that name again; this table rule found 119 (dialect, type) pairs that are not fixpoints (LONGTEXT -> TEXT -> STRING in Spark ...), each confirmed by two round trips and listed as a known finding because the repair contradicts outputs pinned by the existing suite.",
     ref="DESIGN.md section 4 / C01",
 )
 
